@@ -60,6 +60,7 @@ class IdealReservoir:
             times to solve for pressure
         """
         self.time = time
+        vars(self).pop("recovery", None)  # recovery cached from an earlier run is stale
         x = np.linspace(0, 1, self.nx)
         dx_squared = (x[1] - x[0]) ** 2
         pseudopressure = np.empty((len(time), self.nx))
@@ -181,6 +182,7 @@ class SinglePhaseReservoir(IdealReservoir):
         ValueError: wrong length changing pressure at frac-face
         """
         self.time = time
+        vars(self).pop("recovery", None)  # recovery cached from an earlier run is stale
         dx_squared = (1 / self.nx) ** 2
         pseudopressure = np.empty((len(time), self.nx))
         if pressure_fracface is None:
@@ -192,7 +194,6 @@ class SinglePhaseReservoir(IdealReservoir):
                     f" {len(pressure_fracface)} versus {len(time)}"
                 )
                 raise ValueError(msg)
-            self.pressure_fracface = pressure_fracface
         m_i = self.fluid.m_i
         m_f = self.fluid.m_scaled_func(pressure_fracface)
         pseudopressure_initial = np.full(self.nx, m_i)
